@@ -2,7 +2,7 @@
 From ChiaV.Base Require Import Bytes.
 From ChiaV.Clvm Require Import Sexp Ints.
 From ChiaV.Gen Require Import Opcodes.
-From ChiaV.Cond Require Import Model Spec Facts Invariants CostFacts.
+From ChiaV.Cond Require Import Model Spec Facts Invariants CostFacts LimitExact.
 Open Scope N_scope.
 
 (* the cost constants translated from opcodes.rs on this run are the consensus cost table *)
@@ -28,6 +28,11 @@ Theorem C04_cost_accounting : forall vk H K fl V t max_cost clvm_cost b spends p
   b_cost b = b_cond_cost b /\ b_cond_cost b = sumN (map sp_cond_cost spends) /\ b_cost b <= max_cost.
 Proof. exact cost_accounting. Qed.
 
-(* C04_limit_exact (validation at limit = cost succeeds identically, at any smaller limit fails with
-   CostExceeded) is not proved yet: it is checked on the implementation and on the model for every
-   accepted case of the stream (cond.cost.limit). *)
+(* the limit is exact: an accepted result is reproduced identically under limit = its reported cost,
+   and every smaller limit fails with CostExceeded (all trees, flags, visitors, oracles) *)
+Theorem C04_limit_exact : forall vk H K fl V t max_cost clvm_cost b spends pairs,
+  parse_spends vk H K fl V t max_cost clvm_cost = Ok (b, spends, pairs) ->
+  b_cost b <= max_cost /\
+  parse_spends vk H K fl V t (b_cost b) clvm_cost = Ok (b, spends, pairs) /\
+  (forall m, m < b_cost b -> parse_spends vk H K fl V t m clvm_cost = Err CostExceeded).
+Proof. exact limit_exact. Qed.
